@@ -11,3 +11,7 @@ open AC.Props.C01
 #print axioms C01_total_heuristic
 #print axioms C01_total_opt
 #print axioms C01_ensemble_wf
+#print axioms C01_total
+#print axioms C01_driver_agrees
+#print axioms C01_ensemble_total
+#print axioms C01_primitivePre_ok
